@@ -70,6 +70,24 @@ def gen_dsmhist(tier, seed):
             # usable and vanishing lifetimes in turn on one object
             ops = [["compute"], ["setprms", 1], ["compute"], ["setdriver", driver(r, n, m, dk)], ["compute"],
                    ["setprms", 0], ["compute"], ["setprms", 1], ["compute"]]
+        if len(MODELS[cls]) == 2 and not lowsurv:
+            # set_prms calls that raise halfway (the second value cannot be cast): nothing may change
+            first = MODELS[cls][0]
+            k_now, out_ops = 0, []
+            for o in ops:
+                if r.random() < 0.12:
+                    j = r.randrange(npsets0)
+                    mixed = dict(psets[k_now])
+                    mixed[first] = psets[j][first]
+                    psets.append(mixed)
+                    out_ops.append(["setprms_fail", j, len(psets) - 1])
+                    if r.random() < 0.7:
+                        out_ops.append(["compute"])
+                    stats["failed_set_prms"] = stats.get("failed_set_prms", 0) + 1
+                out_ops.append(o)
+                if o[0] == "setprms":
+                    k_now = o[1]
+            ops = out_ops
         ops.append(["compute"])
         via = r.random() < 0.3
         specs.append({"id": cid, "items": items, "extra": extra, "cls": cls,
